@@ -317,6 +317,10 @@ func parseOperations(operationsJSON []byte) (operations []*HTTPOperation, batchM
 	singleQuery := &HTTPOperation{}
 	// if we were given a single object
 	if err := json.Unmarshal(operationsJSON, &singleQuery); err == nil {
+		// a json null is not an operation
+		if singleQuery == nil {
+			return nil, false, errors.New("encountered error parsing operationsJSON: operation must be an object, not null")
+		}
 		// add it to the list of operations
 		operations = append(operations, singleQuery)
 		// we weren't given an object
@@ -328,6 +332,14 @@ func parseOperations(operationsJSON []byte) (operations []*HTTPOperation, batchM
 			payloadErr = fmt.Errorf("encountered error parsing operationsJSON: %w", err)
 		} else {
 			operations = batch
+			// a json null is not an operation
+			for _, operation := range batch {
+				if operation == nil {
+					operations = nil
+					payloadErr = errors.New("encountered error parsing operationsJSON: operation must be an object, not null")
+					break
+				}
+			}
 		}
 
 		// we're in batch mode
